@@ -9,6 +9,7 @@ FUN = 'interpreter/src/functions.rs'
 MAG = 'interpreter/src/magic.rs'
 REF = 'antlr/src/references.rs'
 PAR = 'antlr/src/parser.rs'
+PRS = 'antlr/src/parse.rs'
 MAC = 'antlr/src/macros.rs'
 
 M = []
@@ -189,13 +190,25 @@ brk('c11_range_in_inner_scope', 'C11', OBJ, '''                let iter = Value:
                     .expect("Failed to add accu variable");
                 let iter = Value::resolve(comprehension.iter_range.deref(), &ctx)?;
 ''')
-brk('c11_result_in_outer_scope', 'C11 C10', OBJ, '''                let iter = Value::resolve(comprehension.iter_range.deref(), ctx)?;
+brk('c11_result_in_outer_scope', 'C11', OBJ, '''                let iter = Value::resolve(comprehension.iter_range.deref(), ctx)?;
                 let mut ctx = ctx.new_inner_scope();''', '''                let iter = Value::resolve(comprehension.iter_range.deref(), ctx)?;
                 let outer = ctx;
                 let mut ctx = ctx.new_inner_scope();''', OBJ, '''                Value::resolve(comprehension.result.deref(), &ctx)
             }''', '''                let _ = &ctx;
                 Value::resolve(comprehension.result.deref(), outer)
             }''')
+# ---- C12
+brk('c12_bell_is_backspace', 'C12', PRS, '''                        'a' => '\\u{07}',''', '''                        'a' => '\\u{08}',''')
+brk('c12_u_three_digits', 'C12', PRS, '''                                'u' => 4,''', '''                                'u' => 3,''')
+brk('c12_bytes_newline_wrong', 'C12', PRS, '''                        'n' => b'\\n',''', '''                        'n' => b'\\r',''')
+brk('c12_octal_unbounded', 'C12', PRS, '''            if u <= 255 {''', '''            if u <= 511 {''')
+brk('c12_replacement_char', 'C12', PRS, '''        .and_then(|u| char::from_u32(u).ok_or(ParseUnicodeError::Unicode { value: u }))''', '''        .map(|u| char::from_u32(u).unwrap_or('\\u{fffd}'))''')
+brk('c12_accepts_unknown_escape', 'C12', PRS, '''                        '`' => c2,
+                        'x' | 'X' | 'u' | 'U' => {''', '''                        '`' | '/' => c2,
+                        'x' | 'X' | 'u' | 'U' => {''')
+brk('c12_bytes_accepts_u', 'C12', PRS, '''                        '`' => b'`',
+                        'x' | 'X' => {''', '''                        '`' => b'`',
+                        'x' | 'X' | 'u' => {''')
 # ---- C13
 brk('c13_nan_blind_again', 'C13', FUN, '''            if v.is_nan() || v >= i64::MAX as f64 || v < i64::MIN as f64 {''', '''            if v >= i64::MAX as f64 || v < i64::MIN as f64 {''')
 brk('c13_uint_from_int_as', 'C13', FUN, '''        Value::Int(v) => Value::UInt(
